@@ -179,10 +179,14 @@ def _run_sequence(case, drv):
         res.cmp_floats(f'NliSolver.compute_nli[evaluation {step + 1} on the same Fiber]', impl,
                        [b2f(x) for x in ans['nli']], abs_=0.0)
         want = FB.gn_closed_form(L, freq, baud, pw, al, b2, ga)
+        res.cmp_floats(f'compute_nli vs independent evaluation (GNPy convention)[evaluation {step + 1} on the same Fiber]',
+                       impl, want, rel=1e-8, abs_=0.0)
+        tol = 1e-8 + _ambiguity(al, b2, ga)
         for i in range(n):
-            if abs(impl[i] - want[i]) > 1e-8 * abs(want[i]):
+            if abs(impl[i] - want[i]) > tol * abs(want[i]):
                 res.fail(f'history: evaluation {step + 1} of {len(case["combs"])} on the same Fiber: channel {i}: compute_nli '
-                         f'{impl[i]:.12e} W, GN closed form of this comb {want[i]:.12e} W', channel=i, step=step)
+                         f'{impl[i]:.12e} W, GN closed form of this comb {want[i]:.12e} W (tolerance {tol:.3g}: spread of '
+                         f'the fibre coefficients over the comb)', channel=i, step=step)
                 break
         out = fiber(_si(comb))
         ans2 = drv.ask('c03.ratio', fibre=fj, att_in_db=f2b(att), f=fl(freq), b=fl(baud), p=fl(pw))
@@ -190,10 +194,13 @@ def _run_sequence(case, drv):
                        [b2f(x) for x in ans2['ratio']], abs_=0.0)
         pin = [x * 10 ** (-att / 10) for x in pw]
         want2 = FB.gn_closed_form(L, freq, baud, pin, al, b2, ga)
+        res.cmp_floats(f'Fiber.__call__ nli_ratio vs independent evaluation (GNPy convention)[evaluation {step + 1}]',
+                       out._nli_ratio, [w / q for w, q in zip(want2, pin)], rel=1e-8, abs_=0.0)
         for i in range(n):
-            if abs(out._nli_ratio[i] - want2[i] / pin[i]) > 1e-8 * want2[i] / pin[i]:
+            if abs(out._nli_ratio[i] - want2[i] / pin[i]) > tol * want2[i] / pin[i]:
                 res.fail(f'history after Fiber.__call__: evaluation {step + 1} on the same Fiber: channel {i}: NLI share '
-                         f'{out._nli_ratio[i]:.10e}, closed form of this comb {want2[i] / pin[i]:.10e}', channel=i, step=step)
+                         f'{out._nli_ratio[i]:.10e}, closed form of this comb {want2[i] / pin[i]:.10e} (tolerance {tol:.3g})',
+                         channel=i, step=step)
                 break
     combs = case['combs']
     res.nontrivial = True
@@ -248,8 +255,8 @@ def _run(case, drv):
             res.fail(f'rejected: compute_nli raised {impl_err} on a fibre whose tables cover the comb')
         res.stats.update({'rejected_table': 1})
         return res
-    if case['kind'] == 'malformed':
-        res.fail(f'accepted: malformed input ({case["bad"]}) was not rejected')
+    # (a malformed input that is accepted shows up as a disagreement with the model's accept/reject decision above: C03
+    # has no rejection clause, so it is correspondence only)
     res.cmp_floats('Fiber.alpha', np.atleast_1d(fiber.alpha(si.frequency)) * np.ones(n), [b2f(x) for x in ans['alpha']])
     res.cmp_floats('Fiber.beta2', np.atleast_1d(fiber.beta2(si.frequency)) * np.ones(n), [b2f(x) for x in ans['beta2']],
                    abs_=0.0)
@@ -273,20 +280,31 @@ def _run(case, drv):
     b2 = [FB.beta2_ref(fibp, f) for f in freq]
     ga = [FB.gamma_ref(fibp, f) for f in freq]
     want = FB.gn_closed_form(L, freq, baud, pw, al, b2, ga)
+    # exact agreement with GNPy's generalisation to frequency-dependent coefficients: correspondence
+    res.cmp_floats('compute_nli vs independent evaluation of the closed form (GNPy convention)', impl, want, rel=1e-8, abs_=0.0)
+    # monitor: the published (frequency-flat) formula, up to the choice of the frequency the coefficients are taken at
+    tol = 1e-8 + _ambiguity(al, b2, ga)
+    res.stats.update({'closed_form_tol_' + ('exact' if tol < 1e-6 else 'lt_1pct' if tol < 1e-2 else 'lt_10pct' if tol < 0.1
+                                            else 'ge_10pct'): 1})
     for i in range(n):
         if not (impl[i] >= 0.0):
             res.fail(f'negative: NLI on channel {i} is {impl[i]}', channel=i)
-        if abs(impl[i] - want[i]) > 1e-8 * abs(want[i]):
+        if abs(impl[i] - want[i]) > tol * abs(want[i]):
             res.fail(f'closed form: channel {i} of {n}: compute_nli {impl[i]:.12e} W, GN closed form (16/27 SPM, 32/27 XPM, '
-                     f'asinh kernel, effective length) {want[i]:.12e} W', channel=i)
+                     f'asinh kernel, effective length) {want[i]:.12e} W (tolerance {tol:.3g}: spread of the fibre '
+                     f'coefficients over the comb)', channel=i)
             break
     pin = [x * 10 ** (-att / 10) for x in pw]
     want2 = FB.gn_closed_form(L, freq, baud, pin, al, b2, ga)
+    # SNR_NLI = (1 - r) / r behind Fiber.__call__ is the bookkeeping of C01: correspondence
     snr_nli = out._signal_ratio / out._nli_ratio
+    res.cmp_floats('SNR_NLI after Fiber.__call__ vs (1 - r) / r of the independent evaluation', snr_nli,
+                   [(1 - w / q) / (w / q) for w, q in zip(want2, pin)], rel=1e-8, abs_=0.0)
     for i in range(n):
-        w = (1 - want2[i] / pin[i]) / (want2[i] / pin[i])
-        if abs(snr_nli[i] - w) > 1e-8 * abs(w):
-            res.fail(f'closed form after Fiber.__call__: channel {i}: SNR_NLI {snr_nli[i]:.10e}, expected {w:.10e}', channel=i)
+        r_ = float(out._nli_ratio[i])
+        if abs(r_ - want2[i] / pin[i]) > tol * want2[i] / pin[i]:
+            res.fail(f'closed form after Fiber.__call__: channel {i}: NLI share {r_:.10e} of the power entering the glass, '
+                     f'closed form {want2[i] / pin[i]:.10e} (tolerance {tol:.3g})', channel=i)
             break
     # ---- monitor 2: the four laws on the implementation itself
     k = case['scale']
@@ -322,11 +340,30 @@ def _run(case, drv):
     perm = list(range(n))
     random.Random(case['perm_seed']).shuffle(perm)
     nli_p = NliSolver.compute_nli(_si(comb, order=perm), None, fiber)
-    if not np.allclose(nli_p, impl, rtol=1e-12, atol=0.0):
+    if not np.allclose(nli_p, impl, rtol=1e-10, atol=0.0):
         res.fail('order: the NLI depends on the order in which the channels were supplied')
     ans3 = drv.ask('c03.nli_any', fibre=fj, f=fl([comb['f'][i] for i in perm]), b=fl([comb['b'][i] for i in perm]),
                    p=fl([_pw(comb)[i] for i in perm]))
     res.cmp_floats('constructor(argsort) + compute_nli on shuffled input', nli_p, [b2f(x) for x in ans3['nli']], abs_=0.0)
+    # ---- the four laws once more through the element itself (Fiber.__call__) on a share of the cases
+    if case['perm_seed'] % 3 == 0:
+        base = _nli_via_call(fiber, comb, att)
+        via = _nli_via_call(fiber, comb, att, pw=[k * x for x in _pw(comb)])
+        if any(abs(a - k ** 3 * b) > 1e-9 * k ** 3 * b for a, b in zip(via, base)):
+            res.fail(f'cubic (Fiber.__call__): powers x{k}: the NLI generated in the fibre does not scale by {k ** 3:.9f}')
+        if n >= 2:
+            sub_v = _nli_via_call(fiber, sub, att)
+            sub_sorted = sorted(range(n - 1), key=lambda i: sub['f'][i])
+            if any(base[pos[sub['f'][i]]] < sub_v[t] * (1 - 1e-9) for t, i in enumerate(sub_sorted)):
+                res.fail(f'added channel (Fiber.__call__): adding the channel at {comb["f"][d]:.0f} Hz lowers the NLI of '
+                         'another channel')
+        via = _nli_via_call(fiber, comb, att, pw=pw_r)
+        if any(a < b * (1 - 1e-9) for a, b in zip(via, base)):
+            res.fail(f'raised power (Fiber.__call__): raising channel {r} x{fac} lowers the NLI of a channel')
+        via = _nli_via_call(fiber, comb, att, order=perm)
+        if not np.allclose(via, base, rtol=1e-10, atol=0.0):
+            res.fail('order (Fiber.__call__): the NLI depends on the order in which the channels were supplied')
+        res.stats.update({'laws_via_fiber_call': 1})
     # ---- bookkeeping
     res.nontrivial = n >= 2
     bucket = '1' if n == 1 else '2-8' if n <= 8 else '9-40' if n <= 40 else '41-120' if n <= 120 else '121-400'
@@ -345,6 +382,28 @@ def _run(case, drv):
     if 'dispersion_per_frequency' in fibp:
         res.stats.update({'dispersion_table_' + FB.table_order(fibp['dispersion_per_frequency']): 1})
     return res
+
+
+def _ambiguity(al, b2, ga):
+    """The published closed form is written for ONE loss coefficient, ONE beta2 and ONE gamma. When the fibre coefficients
+    vary over the comb it is defined up to the choice of the frequency at which each is taken (GNPy: alpha of the pump,
+    mean |beta2| of cut and pump, gamma of the cut - a convention, held under correspondence). Whatever the choice inside
+    the comb, the value moves by at most the sensitivities |d ln NLI / d ln gamma| = 2, |d ln NLI / d ln beta2| <= 1,
+    |d ln NLI / d ln alpha| <= 2 (L_eff^2 falls, the asinh integral rises with alpha) times the relative spreads."""
+    def spread(v):
+        lo, hi = min(abs(x) for x in v), max(abs(x) for x in v)
+        return (hi - lo) / lo if lo > 0 else float('inf')
+    sg, sb, sa = spread(ga), spread(b2), spread(al)
+    return (1 + sg) ** 2 * (1 + sb) * (1 + sa) ** 2 - 1
+
+
+def _nli_via_call(fiber, comb, att_db, pw=None, order=None):
+    """NLI power generated in the fibre as seen through Fiber.__call__: NLI share behind the element x power entering the
+    glass, per channel in ascending frequency"""
+    si = _si(comb, order=order, pw=pw)
+    pin = np.array(si.pch) * 10 ** (-att_db / 10)
+    out = fiber(si)
+    return np.array(out._nli_ratio) * pin
 
 
 def _pw(comb):
